@@ -1,6 +1,7 @@
 import ShootVerif.Proofs.DetOrder
 import ShootVerif.Spec.DetOrder
 import ShootVerif.Proofs.GenState
+import ShootVerif.Proofs.Repair
 import ShootVerif.Gen.Facts
 /-!
 C07 — output depends only on hand-written sources and the command line.
@@ -166,6 +167,49 @@ theorem C07_fixpoint_noembed (lk : Leaks) (fl : NFlags) (d₁ d₂ : Disk) (st :
   intro e he
   cases he
 
+/-- fixpoint for `new -getset` at HEAD (separate files): when every type comes after the listed types it embeds,
+    running again over the directory the run has left gives the same run (hypotheses as in `C08_perm_new`) -/
+theorem C07_fixpoint_new (fl : NFlags) (hg : fl.getset = true) (ts : List NType) (d : Disk)
+    (hw : WFL ts) (hH : Hyg ts d) (hC : Clo ts d) (hd : DepsFirst ts) :
+    generate (newMachine codeToday fl)
+        (afterRun d (writtenSep (newMachine codeToday fl) (generate (newMachine codeToday fl) d ts))) ts
+      = generate (newMachine codeToday fl) d ts := by
+  show generate (newMachine noLeaks fl) (afterRun d (writtenSep (newMachine noLeaks fl) (generate (newMachine noLeaks fl) d ts))) ts
+    = generate (newMachine noLeaks fl) d ts
+  have hsub : ∀ p ∈ generate (newMachine noLeaks fl) d ts, p.1 ∈ ts := by
+    rw [generate_eq_seqRun fl hg, seqRun_perm noLeaks fl hw ts d (fun _ h => h) hw.names hH hC hd ts (List.Perm.refl _) hd]
+    intro p hp
+    rw [List.mem_map] at hp
+    obtain ⟨t, ht, rfl⟩ := hp
+    exact ht
+  have hinv := afterRun_inv fl hw _ d hsub hH
+  rw [generate_eq_seqRun fl hg d ts] at hinv ⊢
+  rw [generate_eq_seqRun fl hg]
+  exact ((seqRun_agree noLeaks fl hw ts d _ (fun _ h => h) hH hinv.1 hC (fun i hi => (hinv.2 i hi).symm) hd).1).symm
+
+/-- stale independence for `new -getset` at HEAD, run level: two hygienic directories that agree on the interfaces
+    of the types OUTSIDE the list give the same run, whatever (stale) output of the listed types they hold -/
+theorem C07_stale_indep_new (fl : NFlags) (hg : fl.getset = true) (ts : List NType) (a b : Disk)
+    (hw : WFL ts) (hHa : Hyg ts a) (hHb : Hyg ts b) (hC : Clo ts a) (hA : Agree ts a b) (hd : DepsFirst ts) :
+    generate (newMachine codeToday fl) a ts = generate (newMachine codeToday fl) b ts := by
+  show generate (newMachine noLeaks fl) a ts = generate (newMachine noLeaks fl) b ts
+  rw [generate_eq_seqRun fl hg, generate_eq_seqRun fl hg]
+  exact (seqRun_agree noLeaks fl hw ts a b (fun _ h => h) hHa hHb hC hA hd).1
+
+/-- with the proposed repair the dependencies-first hypothesis on the list is not needed (separate files), and in
+    all-in-one mode the run never sees its own earlier output, so it is a fixpoint over ANY directory -/
+theorem C07_fixpoint_repaired (fl : NFlags) (hg : fl.getset = true) (rp : Repair) (ts : List NType) (d : Disk) :
+    (rp.depsFirst = true → RunOK ts d →
+      generateR rp (newMachine codeToday fl) .sep
+          (afterRun d (writtenSep (newMachine codeToday fl) (generateR rp (newMachine codeToday fl) .sep d ts))) ts
+        = generateR rp (newMachine codeToday fl) .sep d ts) ∧
+    (rp.shadowAio = true → ∀ n,
+      generateR rp (newMachine codeToday fl) (.aio n)
+          (afterRun d (writtenAio (newMachine codeToday fl) n (generateR rp (newMachine codeToday fl) (.aio n) d ts))) ts
+        = generateR rp (newMachine codeToday fl) (.aio n) d ts) :=
+  ⟨fun hrp h => generateR_sep_fixpoint fl hg rp hrp ts d h,
+   fun hrp n => generateR_aio_fixpoint rp hrp (newMachine codeToday fl) n d ts⟩
+
 def hE : NType :=
   { name := "E", file := "t.shootnew.e.go", gs := [("name", true, true)], tree := .field { name := "name", ptype := "string" } .nil }
 def hA : NType :=
@@ -196,6 +240,20 @@ theorem C07_F_staleAllInOne_witness :
     let disk1 := afterRun [] (writtenAio m "t.shootnew.go" (generate m [] [hM true, hZ]))
     (generate m disk1 [hM false, hZ]).map (·.2.jget) = [[], ["name", "id"]] ∧
     (generate m [] [hM false, hZ]).map (·.2.jget) = [[], ["id"]] := by decide
+
+/-- `C07_fixpoint_new` / `C07_fixpoint_repaired`: [E, A] is hygienic over a directory with stale output (decidable check);
+    the embedder-first list [A, E] is a fixpoint with the repair (A has EGetter in the first run already) -/
+example : hygB [hE, hA] [{ name := "t.shootnew.e.go", defs := [("EGetter", {})] }] = true ∧
+    (let m := newMachine codeToday { getset := true }
+     let r1 := generateR fullRepair m .sep [] [hA, hE]
+     (generateR fullRepair m .sep (afterRun [] (writtenSep m r1)) [hA, hE]).map (·.2.getIfaces) = r1.map (·.2.getIfaces) ∧
+     r1.map (·.2.getIfaces) = [["E"], []]) := by decide
+
+/-- and the stale all-in-one file is not seen with the repair (compare `C07_F_staleAllInOne_witness`) -/
+example : (let m := newMachine codeToday { getset := true, json := true }
+     let disk1 := afterRun [] (writtenAio m "t.shootnew.go" (generateR fullRepair m (.aio "t.shootnew.go") [] [hM true, hZ]))
+     (generateR fullRepair m (.aio "t.shootnew.go") disk1 [hM false, hZ]).map (·.2.jget) = [[], ["id"]] ∧
+     (generateR noRepair m (.aio "t.shootnew.go") disk1 [hM false, hZ]).map (·.2.jget) = [[], ["name", "id"]]) := by decide
 
 /-! ## non-vacuity -/
 
